@@ -311,8 +311,28 @@ func runCheck(prop, tier, repo string, verbose bool, only string, timeout int) i
 				modes = []string{""}
 			}
 		}
+		type runSpec struct {
+			mode string
+			ci   int
+		}
+		var runs []runSpec
 		for _, m := range modes {
+			if len(ct.Cases) == 0 {
+				runs = append(runs, runSpec{m, 0})
+				continue
+			}
+			runs = append(runs, runSpec{m, -1})
+			for ci := range ct.Cases {
+				runs = append(runs, runSpec{m, ci + 1})
+			}
+		}
+		for _, rs := range runs {
+			m := rs.mode
 			ex := newExec(prog, fi, ct, m)
+			ex.caseIdx = rs.ci
+			if rs.ci > 0 {
+				ex.fnName += fmt.Sprintf("{case%d}", rs.ci)
+			}
 			if err := ex.run(); err != nil {
 				f := false
 				obls = append(obls, &Obligation{Name: ex.fnName + "/in-subset" + ex.modeSuffix(), Func: k, Kind: "in-subset", Goal: False, Static: &f, Note: err.Error(), Prop: ct.Props})
